@@ -21,7 +21,7 @@ RULE = ('line vocabulary with repeats (a: 1, a: 2, A: 3, b:, continuations, From
 TECHNIQUE = ('Lean 4 theorems for the merge clause, on items and on the rendered text (soundM: keys in order of first occurrence; each key maps to its distinct values in order of first appearance, any number and pattern of repeats) + executable word-inclusion and merge specification evaluated on every implementation observation + correspondence with a hand model of the stdlib header parser')
 LEVEL_TEXT = ('The two clauses (every word of the text appears in a key or a value; repeated names merge under the first occurrence keeping distinct values in order) are decided by the '
               'executable specification on every implementation observation and by correspondence with the hand model of HeaderParser + get_paragraph_data over adversarial line '
-              'vocabularies and the exhaustive pairs family. Proved in Lean 4 for the merging loop of get_paragraph_data, for any list of (name, value) items: the keys are the lower-cased trimmed names in order of first occurrence (mergeItems_keys) and every key maps to the newline-join of the distinct trimmed values spelled for it in order of first appearance, whatever the pattern of repeated names and values, when the values are single lines (mergeItems_lookup). Props.C08M.soundM: for every paragraph of single-line Name: value fields (names a letter then letters, digits, hyphens; values without line boundaries or surrounding blanks) with any pattern of repeated names and values, the model of get_paragraph_data on the rendered text returns exactly the expected mapping: the header parser delivers exactly the items of the text (getParagraphData_items, any names) and the merge gives each lower-cased name once, in order of first occurrence, with its distinct values in order. The word-inclusion clause over arbitrary texts is not a theorem.')
+              'vocabularies and the exhaustive pairs family. Proved in Lean 4 for the merging loop of get_paragraph_data, for any list of (name, value) items: the keys are the lower-cased trimmed names in order of first occurrence (mergeItems_keys) and every key maps to the newline-join of the distinct trimmed values spelled for it in order of first appearance, whatever the pattern of repeated names and values, single-line or multi-line (mergeItems_lookup: no hypothesis on the values since fix F14; before it the theorem needed single-line values, and the excluded point was a defect of the code). Props.C08M.soundM: for every paragraph of Name: value fields whose values have any number of continuation lines (names a letter then letters, digits, hyphens; first line and continuation lines without line boundaries, value spelled trimmed) with any pattern of repeated names and values, the model of get_paragraph_data on the rendered text returns exactly the expected mapping: the header parser delivers exactly the items of the text (getParagraphData_items, any names) and the merge gives each lower-cased name once, in order of first occurrence, with its distinct values in order. The word-inclusion clause over arbitrary texts is not a theorem.')
 LEVEL_NOTE = ('Trusted: Lean kernel; axioms propext, Classical.choice, Quot.sound only; the stdlib email parser is modelled and tied by correspondence, not verified.')
 
 VOCAB = ['a: 1', 'a: 2', 'A: 3', 'a: 1', 'b:', 'b: x y', ' cont', '\tcont2', ' .', 'From me', 'From: you', ':x', ': ', 'junk line', '', ' ', 'Homepage: http://x:80/y',
@@ -103,8 +103,35 @@ def known_match(entry, op, inp, obs):
     return False
 
 
+MV_FIRST = ['1', '2', 'first', 'x y', 'c']
+MV_CONTS = [' c', ' 0 common-file', '\tc', ' .', ' 1', '  two', ' ']
+
+
+def multiline_pairs(rng, n):
+    """repeated names whose values have continuation lines: whole values repeat, share lines, are a line or a prefix of one another"""
+    for _ in range(n):
+        items = []
+        for _ in range(rng.randint(1, 5)):
+            v = rng.choice(MV_FIRST)
+            conts = [rng.choice(MV_CONTS) for _ in range(rng.choice((0, 0, 1, 1, 2, 3)))]
+            while conts and not conts[-1].strip():
+                conts.pop()
+            items.append([rng.choice(('a', 'a', 'A', 'b', 'Checksums-Sha256')), '\n'.join([v] + conts)])
+        yield items
+
+
+def multiline_family():
+    vals = ['x', 'x\n c', 'c', 'x\n c\n d', 'y\n c']
+    for n in (2, 3):
+        for combo in itertools.product(vals, repeat=n):
+            yield [['a', v] for v in combo]
+            yield [['a' if i != 1 else 'B', v] for i, v in enumerate(combo)]
+
+
 def streams(tier, rng):
     yield {'name': 'pairs-family', 'op': 'C08m', 'cases': pairs_family(), 'exhaustive': True}
+    yield {'name': 'multi-line-values-family', 'op': 'C08m', 'cases': multiline_family(), 'exhaustive': True}
+    yield {'name': 'multi-line-values-random', 'op': 'C08m', 'cases': multiline_pairs(rng, 3000 if tier == 'quick' else 50000)}
     L = 3 if tier == 'quick' else 4
     yield {'name': 'exhaustive-lines<=%d' % L, 'op': 'C08', 'cases': gen822.exhaustive(L, rng), 'exhaustive': True}
     yield {'name': 'vocabulary-texts', 'op': 'C08', 'cases': texts(rng, 20000 if tier == 'quick' else 300000)}
